@@ -63,25 +63,51 @@ def strip_comments(src):
     return ''.join(out)
 
 
-def hygiene():
-    bad = []
+def dep_closure(relpath):
+    """.v files (relative to coq/) that relpath transitively requires from this development (PV.*)"""
+    seen, todo = set(), [relpath]
+    while todo:
+        f = todo.pop()
+        if f in seen or not os.path.exists(os.path.join(COQ, f)):
+            continue
+        seen.add(f)
+        src = strip_comments(open(os.path.join(COQ, f)).read())
+        for m in re.finditer(r'Require\s+(?:Import\s+|Export\s+)?(.+?)\.(?=\s|$)', src, re.S):
+            for mod in m.group(1).split():
+                mod = mod[3:] if mod.startswith('PV.') else mod
+                cand = mod.replace('.', '/') + '.v'
+                if os.path.exists(os.path.join(COQ, cand)):
+                    todo.append(cand)
+    return seen
+
+
+def hygiene(scope=None):
+    """scope=None: the whole development must be clean (setup).  scope='Props/Cxx.v': everything that file
+    depends on must be clean; problems elsewhere (another property's work in progress) are only reported."""
+    bad, elsewhere = [], []
+    closure = None if scope is None else dep_closure(scope)
     for root, _, files in os.walk(COQ):
         for f in files:
             if not f.endswith('.v'):
                 continue
             p = os.path.join(root, f)
+            rel = os.path.relpath(p, COQ)
+            sink = bad if (closure is None or rel in closure) else elsewhere
             src = strip_comments(open(p).read())
             src = re.sub(r'"(?:[^"]|"")*"', '""', src)      # Coq string literals cannot declare anything
             depth = 0
             for n, line in enumerate(src.split('\n'), 1):
                 if FORBIDDEN.search(line):
-                    bad.append(f'{p}:{n}: {line.strip()}')
+                    sink.append(f'{p}:{n}: {line.strip()}')
                 if re.match(r'^\s*Section\b', line):
                     depth += 1
                 elif re.match(r'^\s*End\b', line) and depth:
                     depth -= 1
                 elif depth == 0 and SECTIONLESS.match(line):
-                    bad.append(f'{p}:{n}: {line.strip()} (outside a Section)')
+                    sink.append(f'{p}:{n}: {line.strip()} (outside a Section)')
+    if elsewhere:
+        sys.stderr.write('hygiene: forbidden constructs outside the files this property depends on:\n  '
+                         + '\n  '.join(elsewhere[:10]) + '\n')
     if bad:
         raise MachineryError('forbidden constructs in the Coq development:\n' + '\n'.join(bad))
 
